@@ -660,6 +660,21 @@ class _Run:
                       % (self.name(xk), ids, self.loc, out[1], out[2]))
         rp._pyroSerializer = ser
         rp._pyroTimeout = TIMEOUT
+        own = getattr(self.pool.get(k), "OWN", None)
+        if own and self.i % 2 == 0:
+            # first thing done with the proxy that arrived (before any connection refreshes what it knows): a method that only the
+            # class family of THIS object has. The proxy must describe this object as it is registered now - not one remembered
+            # from an earlier holder of the id, with that one's methods
+            try:
+                out3 = self.invoke(rp, own)
+            finally:
+                rp._pyroRelease()
+            self.settle()
+            if out3[0] == "error" and out3[1] == "AttributeError":
+                self.viol("returned-proxy-stale-interface", st, "%s arrived as a proxy for id %r that does not know the object's own method "
+                          "%s() (%s): the proxy describes another object" % (self.name(xk), out[1], own, out3[2][:100]))
+            self.check_routed("a call of %s() through the returned proxy (id %r)" % (own, out[1]), xk, out3, self.log[n0:], "returned-proxy-misrouted", st)
+            n0 = len(self.log)
         try:
             out2 = self.invoke(rp, "who")
         finally:
@@ -1277,6 +1292,22 @@ class RegistryWorld(World):
                 shapes[a] = "inst"
                 gtier = plan["gtier"] = "extended"
                 plan["focus"] = "class-then-instance"
+        if "focus" not in plan and rng.random() < 0.04:
+            # focus shape "replaced by an object of another class": A is registered and returned (whatever was remembered about its
+            # proxy), then B - of a class with other methods - takes the id over by force and is returned: the proxy must be B's
+            a, b = rng.sample(range(3), 2)
+            ser = rng.choice(RET_SERS)
+            del ops[:]
+            ops.append({"op": "reg", "x": ["o", a], "id": rng.choice(["id0", None]), "force": False, "weak": rng.random() < 0.3})
+            ops.append({"op": "ret", "k": a, "ser": ser})
+            ops.append({"op": "reg", "x": ["o", b], "id": "@o%d" % a, "force": True, "weak": False})
+            ops.append({"op": "ret", "k": b, "ser": ser})
+            if rng.random() < 0.5:
+                ops.append({"op": "call", "id": "@o%d" % b, "ser": rng.choice(SERIALIZERS)})
+            fams = rng.sample(["plain", "vars", "noweak"], 2)
+            shapes[a], shapes[b] = fams[0], fams[1]
+            gtier = plan["gtier"] = "extended"
+            plan["focus"] = "replaced-by-other-class"
         if "focus" not in plan and rng.random() < 0.04:
             del ops[:]
             for _ in range(rng.choice([0, 0, 1])):
